@@ -224,6 +224,37 @@ class _Subst(ast.NodeTransformer):
 _TEXT_CAP = 400
 
 
+_NEG = {ast.NotIn: ast.In, ast.IsNot: ast.Is, ast.NotEq: ast.Eq}
+_POS = {v: k for k, v in _NEG.items()}
+
+
+def _dual_compare(text: str):
+    """(positive text, was_negative) for a single comparison with in / is / == or their negations; else None."""
+    try:
+        e = ast.parse(text, mode="eval").body
+    except SyntaxError:
+        return None
+    if not isinstance(e, ast.Compare) or len(e.ops) != 1:
+        return None
+    op = type(e.ops[0])
+    if op in _NEG:
+        return ast.unparse(ast.Compare(left=e.left, ops=[_NEG[op]()], comparators=e.comparators)), True
+    if op in _POS:
+        return text, False
+    return None
+
+
+def _negative_of(text: str):
+    try:
+        e = ast.parse(text, mode="eval").body
+    except SyntaxError:
+        return None
+    if isinstance(e, ast.Compare) and len(e.ops) == 1 and type(e.ops[0]) in _POS:
+        return ast.unparse(ast.Compare(left=e.left, ops=[_POS[type(e.ops[0])]()], comparators=e.comparators))
+    return None
+
+
+
 class Interp:
     def __init__(self, fn: ast.FunctionDef, hooks: Hooks, valuation: Valuation, prefix: str = ""):
         self.fn = fn
@@ -489,6 +520,18 @@ class Interp:
         if m:
             text = f"{m.group(1)}({m.group(2)})"
         f = self.hooks.atom(text, node, self)
+        if f is None:
+            # `a not in b` / `a is not b` / `a != b` and their positive forms are one atom: an atomizer that knows
+            # either spelling decides both; an unknown comparison is named by its positive form
+            dual = _dual_compare(text)
+            if dual is not None:
+                pos, negated = dual
+                other = pos if negated else _negative_of(pos)
+                g = self.hooks.atom(other, node, self) if other is not None else None
+                if g is not None:
+                    f = ("not", g) if not isinstance(g, bool) else (not g)
+                elif negated:
+                    f = ("not", "?" + pos)
         if f is None:
             f = "?" + text
         self.trace.append(getattr(node, "lineno", 0))
